@@ -61,19 +61,432 @@ PROPS = {
     ),
 }
 
-# ------------------------------------------------------------------ manifest texts
-MANIFEST_TEXT = {
-    "C13": dict(
-        text=("ChannelsPerKey.tla (one action per step of MaxChannelsPerKey::poll_next, explicit Arc/Weak counts, "
-              "notification queue and wakers) is model-checked exhaustively by TLC for 2-3 keys, n in {1,2}, up to 6 arrivals, "
-              "with polls atomic and with Close/Arrive interleaved inside a poll; every terminal behaviour is exported as a "
-              "schedule and replayed against the real limiter with the predicted poll results compared step by step; all "
-              "recorded traces (replayed + seeded random) are validated by TLC against the observer invariants Inv_C13a/b/c."),
-        design_ref="DESIGN.md section 6, C13",
-        note=("Exhaustive only within the model constants; the code is judged on the explored schedules. Trusted: TLC, the "
-              "harness (listener, keymaker bookkeeping), ObsKeys' reading of the statement."),
-        technique="TLA+ model checking (TLC) + schedule replay + TLC trace validation",
+
+# ------------------------------------------------------------------ client (Client.tla / ObsClient.tla)
+def tname(t):
+    return "d" if t == 0 else "c%d" % t
+
+
+def client_convert(sched):
+    steps, expect = [], []
+    for s in sched:
+        a = s["a"]
+        if a == "Poll":
+            steps.append({"a": "Poll", "t": tname(s["t"])})
+            e = {"res": s["res"]}
+            if s["t"] == 0:
+                if "infl" in s:
+                    e["infl"] = s["infl"]
+                if "woken" in s:
+                    e["woken"] = [tname(t) for t in s["woken"]]
+            expect.append(e)
+        elif a == "Call":
+            steps.append({"a": "Call", "c": s["c"], "dl": s["dl"], "h": 0, "tr": 100 + s["c"], "sampled": s["c"] % 2 == 0})
+            expect.append({})
+        else:
+            steps.append(s)
+            expect.append({})
+    return steps, expect
+
+
+def client_cfg_of(c):
+    return {"maxInFlight": c["MaxInFlight"], "buf": c["Buf"], "mode": c["SinkMode"].strip('"'),
+            "cap": c["Cap"], "open": True, "credits": 0}
+
+
+CLIENT_BASE = dict(Callers="{1, 2}", MaxInFlight=1, Buf=1, Deadlines="{2}", MaxTime=2, PeerBudget=1,
+                   SinkMode='"always"', Cap=1, FaultOps="{}", AllowEof=False, AllowHandleDrop=False,
+                   AtomicPolls=True, FixF9=True, Mutant='"none"', ExportSched=False)
+
+
+def cmodel(name, inv, quick=None, thorough=None, **over):
+    return dict(module="MC_Client", name=name, constants=dict(CLIENT_BASE, **over),
+                quick=quick or {}, thorough=thorough or {},
+                invariants=["TypeOK", "NoSpin"] + inv)
+
+
+def cexport(name, quick=None, thorough=None, cap_quick=2500, cap_thorough=30000, sim_quick=2000, sim_thorough=30000, **over):
+    return dict(module="MC_Client", name=name, constants=dict(CLIENT_BASE, ExportSched=True, **over),
+                quick=quick or {}, thorough=thorough or {}, convert=client_convert, cfg_of=client_cfg_of,
+                cap_quick=cap_quick, cap_thorough=cap_thorough, timeout=900,
+                simulate_quick=sim_quick, simulate_thorough=sim_thorough)
+
+
+def has(e, *acts):
+    return any(s.get("a") in acts for s in e.get("steps", []))
+
+
+def count(e, act):
+    return sum(1 for s in e.get("steps", []) if s.get("a") == act)
+
+
+CLIENT_ASSUME = [
+    "single-threaded harness: polls are atomic except at the H1 yield points inside the call guard's drop "
+    "(the model additionally explores AtomicPolls=FALSE in the thorough tier, not replayed)",
+    "a call future owns a clone of the Channel handle (call() borrows &self)",
+    "virtual clock: tokio paused clock, tarpc's Instant::now() routed to it by hook H4",
+    "transport = instrumented VTransport (always / coupled / independent sink modes), peer scripted by the schedule",
+]
+
+
+def client_family(exports, rq, rt, opts=None):
+    return dict(family="client", trace_module="Trace_Client", random_quick=rq, random_thorough=rt,
+                exports=exports, opts=opts or {})
+
+
+CLIENT_PROPS = {
+    "C01": dict(
+        level="model_checking", verdict="Verdict_C01",
+        rule=("client schedules (Call/Poll/Peer/Drop*/Tick/...): TLC terminal behaviours of Client.tla with an adversarial peer "
+              "+ seeded random online schedules; non-trivial = at least 2 calls and at least 2 peer responses; distinct by (cfg, steps)"),
+        assumptions=CLIENT_ASSUME,
+        models=[cmodel("peer-adversarial", ["M_C01"], MaxInFlight=2, PeerBudget=2,
+                       thorough=dict(PeerBudget=3, Deadlines="{1, 2}"))],
+        families=[client_family([cexport("peer", MaxInFlight=2, PeerBudget=2)], 1500, 30000, {"faults": 0})],
+        relevant=lambda e: count(e, "Call") >= 2 and count(e, "Peer") >= 2,
     ),
+    "C02": dict(
+        level="model_checking", verdict="Verdict_C02",
+        rule=("client schedules with capacity 1, slow/blocked sinks, peer close, handle drop and faults, each finished by quiesce; "
+              "non-trivial = a call that had to wait (second call at capacity, blocked sink, or close/fault race); distinct by (cfg, steps)"),
+        assumptions=CLIENT_ASSUME + ["'nothing left that could wake the system' = harness quiesce: settle, grant the sink, run the clock to the last armed deadline"],
+        models=[cmodel("capacity", ["M_C02"], AllowEof=True, AllowHandleDrop=True,
+                       thorough=dict(Deadlines="{1, 2}", PeerBudget=2)),
+                cmodel("slow-sink", ["M_C02"], SinkMode='"coupled"', thorough=dict(PeerBudget=2)),
+                cmodel("credit-sink", ["M_C02"], SinkMode='"independent"', thorough=dict(PeerBudget=2))],
+        families=[client_family([cexport("capacity", AllowEof=True, AllowHandleDrop=True),
+                                 cexport("slow", SinkMode='"coupled"', cap_quick=800),
+                                 cexport("credit", SinkMode='"independent"', cap_quick=800)], 1500, 30000)],
+        relevant=lambda e: count(e, "Call") >= 2 or has(e, "SinkBlock", "SinkCredit", "PeerEof", "Arm", "HandleDrop"),
+    ),
+    "C03": dict(
+        level="model_checking", verdict="Verdict_C03",
+        rule=("client schedules with abandonment at every stage (before enqueue, queued, transmitted, reply in transit/buffered), "
+              "the guard's three drop steps interleaved with other tasks through hook H1; non-trivial = contains an abandon; distinct by (cfg, steps)"),
+        assumptions=CLIENT_ASSUME,
+        models=[cmodel("abandon-matrix", ["M_C03"], Deadlines="{9}", PeerBudget=2, thorough=dict(Deadlines="{1, 9}", PeerBudget=3)),
+                cmodel("abandon-slow-sink", ["M_C03"], Deadlines="{9}", SinkMode='"coupled"', thorough=dict(PeerBudget=2))],
+        families=[client_family([cexport("abandon", Deadlines="{9}", PeerBudget=2, MaxTime=1),
+                                 cexport("abandon-slow", Deadlines="{9}", SinkMode='"coupled"', cap_quick=1500)], 2000, 40000, {"faults": 0})],
+        relevant=lambda e: has(e, "Drop", "DropEnter"),
+    ),
+    "C05": dict(
+        level="model_checking", verdict="Verdict_C05",
+        rule=("client schedules with deadlines already past / zero / 1 / 2 ms and far away, queueing delay, reply-vs-expiry orders and clock steps; "
+              "non-trivial = a call with a near deadline and at least one clock tick; distinct by (cfg, steps)"),
+        assumptions=CLIENT_ASSUME + ["timer granularity 1 ms: 'once its deadline passes' is evaluated at settle points with now >= deadline + 1 ms"],
+        models=[cmodel("deadlines", ["M_C05"], Deadlines="{0, 1, 2}", MaxTime=3,
+                       thorough=dict(PeerBudget=2))],
+        families=[client_family([cexport("deadlines", Deadlines="{0, 1, 2}", MaxTime=3)], 2000, 40000, {"faults": 0})],
+        relevant=lambda e: has(e, "Tick") and any(s.get("a") == "Call" and s.get("dl", 10000) < 1000 for s in e.get("steps", [])),
+    ),
+    "C09": dict(
+        level="model_checking", verdict="Verdict_C09",
+        rule=("client schedules with one fault armed at the next use of each of poll_next/poll_ready/start_send/poll_flush/poll_close "
+              "(model) or the k-th use (random), and peer EOF, with calls in every stage; non-trivial = a fault fired or EOF was read; distinct by (cfg, steps)"),
+        assumptions=CLIENT_ASSUME + ["this check covers the client half of C09; the server half is checked by the server family"],
+        models=[cmodel("faults", ["M_C09"], FaultOps='{"next", "ready", "send", "flush", "close"}', AllowEof=True, AllowHandleDrop=True)],
+        families=[client_family([cexport("faults", FaultOps='{"next", "ready", "send", "flush", "close"}', AllowEof=True, AllowHandleDrop=True)], 2500, 40000)],
+        relevant=lambda e: has(e, "Arm", "PeerEof"),
+    ),
+    "C10": dict(
+        level="model_checking", verdict="Verdict_C10",
+        rule=("client schedules where the last handle is dropped / the peer closes at every point with queued, in-flight, abandoned and completed calls; "
+              "non-trivial = HandleDrop or PeerEof present; distinct by (cfg, steps)"),
+        assumptions=CLIENT_ASSUME + ["this check covers the client half of C10; the server half is checked by the server family"],
+        models=[cmodel("shutdown", ["M_C10"], AllowEof=True, AllowHandleDrop=True, thorough=dict(PeerBudget=2, Deadlines="{1, 2}")),
+                cmodel("shutdown-slow-sink", ["M_C10"], AllowHandleDrop=True, SinkMode='"coupled"')],
+        families=[client_family([cexport("shutdown", AllowEof=True, AllowHandleDrop=True),
+                                 cexport("shutdown-slow", AllowHandleDrop=True, SinkMode='"coupled"', cap_quick=800)], 2000, 40000, {"faults": 0})],
+        relevant=lambda e: has(e, "HandleDrop", "PeerEof"),
+    ),
+    "C11": dict(
+        level="model_checking", verdict="Verdict_C11",
+        rule=("client schedules; in-flight and timer counts (hook H3) compared at every dispatch poll end with the requests outstanding on the wire; "
+              "long random runs reuse table slots; non-trivial = at least 2 calls; distinct by (cfg, steps)"),
+        assumptions=CLIENT_ASSUME + ["this check covers the client half of C11; the server half is checked by the server family"],
+        models=[cmodel("reclaim", ["M_C11"], AllowHandleDrop=True, thorough=dict(PeerBudget=2, MaxInFlight=2))],
+        families=[client_family([cexport("reclaim", AllowHandleDrop=True)], 2500, 40000, {"calls": 8})],
+        relevant=lambda e: count(e, "Call") >= 2,
+    ),
+    "C14": dict(
+        level="model_checking", verdict="Verdict_C14",
+        rule=("client schedules over coupled (socket-like) and independent (bounded-queue-like) sinks with capacity 1-2, readiness/flush granted late, faults; "
+              "every Sink/Stream call of the dispatch is logged and judged; non-trivial = the sink was not ready at least once; distinct by (cfg, steps)"),
+        assumptions=CLIENT_ASSUME + ["this check covers the client dispatch; Requests/MaxRequests are checked by the server family",
+                                     "a poll that performs more than 400 transport operations is treated as non-returning (Spin)"],
+        models=[cmodel("coupled", ["M_C14"], SinkMode='"coupled"', AllowHandleDrop=True, thorough=dict(PeerBudget=2)),
+                cmodel("independent", ["M_C14"], SinkMode='"independent"', AllowHandleDrop=True, thorough=dict(PeerBudget=2))],
+        families=[client_family([cexport("coupled", SinkMode='"coupled"', AllowHandleDrop=True, cap_quick=1000),
+                                 cexport("independent", SinkMode='"independent"', AllowHandleDrop=True, cap_quick=1000)], 2000, 40000)],
+        relevant=lambda e: e.get("cfg", {}).get("mode") in ("coupled", "independent"),
+    ),
+    "C18": dict(
+        level="model_checking", verdict="Verdict_C18",
+        rule=("client schedules with distinct trace ids and both sampling values per call, cancellation at every point; trace fields of every Request "
+              "and Cancel item compared; non-trivial = a Cancel was possible (an abandon) or 2+ concurrent calls; distinct by (cfg, steps)"),
+        assumptions=CLIENT_ASSUME + ["this check covers the client hop (caller -> wire, request -> cancel); server hop and chains are not yet bound"],
+        models=[cmodel("trace", ["M_C18"], MaxInFlight=2)],
+        families=[client_family([cexport("trace", MaxInFlight=2)], 1500, 30000, {"faults": 0})],
+        relevant=lambda e: has(e, "Drop", "DropEnter") or count(e, "Call") >= 2,
+    ),
+}
+PROPS.update(CLIENT_PROPS)
+
+
+# ------------------------------------------------------------------ server (Server.tla / ObsServer.tla)
+def sname(t):
+    return "s" if t == 0 else "h%d" % t
+
+
+def server_convert(sched):
+    steps, expect = [], []
+    for s in sched:
+        a = s["a"]
+        if a == "Poll":
+            steps.append({"a": "Poll", "t": sname(s["t"])})
+            e = {"res": s["res"]}
+            if s["t"] == 0:
+                if "infl" in s:
+                    e["infl"] = s["infl"]
+                if "woken" in s:
+                    e["woken"] = [sname(t) for t in s["woken"]]
+            expect.append(e)
+        else:
+            steps.append(s)
+            expect.append({})
+    return steps, expect
+
+
+def server_cfg_of(c):
+    lim = c["Limit"]
+    return {"limit": -1 if isinstance(lim, str) else lim, "respBuf": c["RespBuf"], "mode": c["SinkMode"].strip('"'),
+            "cap": c["Cap"], "open": True, "credits": 0}
+
+
+SERVER_BASE = dict(Ids="{1, 2}", MaxInc=2, Limit="<-NoLimit", RespBuf=1, Deadlines="{2}", MaxTime=2, CancelBudget=1,
+                   SinkMode='"always"', Cap=1, FaultOps="{}", AllowEof=True, AllowAppDrop=False, AllowStreamDrop=False,
+                   FreshIdsOnly=True, AtomicPolls=True, ExportSched=False)
+
+
+def smodel(name, inv, quick=None, thorough=None, **over):
+    return dict(module="MC_Server", name=name, constants=dict(SERVER_BASE, **over),
+                quick=quick or {}, thorough=thorough or {}, invariants=["TypeOK", "NoSpin", "TrackAgree"] + inv)
+
+
+def sexport(name, quick=None, thorough=None, cap_quick=2500, cap_thorough=30000, sim_quick=2000, sim_thorough=30000, **over):
+    return dict(module="MC_Server", name=name, constants=dict(SERVER_BASE, ExportSched=True, **over),
+                quick=quick or {}, thorough=thorough or {}, convert=server_convert, cfg_of=server_cfg_of,
+                cap_quick=cap_quick, cap_thorough=cap_thorough, timeout=900,
+                simulate_quick=sim_quick, simulate_thorough=sim_thorough)
+
+
+SERVER_ASSUME = [
+    "single-threaded harness: channel and handler polls are atomic (AtomicPolls=FALSE is model-checked in the thorough tier only)",
+    "handlers are scripted service futures run through InFlightRequest::execute; incarnations are numbered in yield order and answer with body h<n>",
+    "virtual clock (hook H4); transport = instrumented VTransport; peer scripted by the schedule",
+    "'once the deadline passes' / 'promptly' are evaluated at channel polls that ran to Pending with now >= deadline + 1 ms",
+]
+
+
+def server_family(exports, rq, rt, opts=None):
+    return dict(family="server", trace_module="Trace_Server", random_quick=rq, random_thorough=rt,
+                exports=exports, opts=opts or {})
+
+
+SERVER_PROPS = {
+    "C04": dict(
+        level="model_checking", verdict="Verdict_C04",
+        rule=("server schedules (Req/Cancel/Poll/Complete/Tick/sink steps) with fresh ids: TLC terminal + simulated behaviours of Server.tla "
+              "and seeded random online schedules, with and without a request limit and with unready sink periods; "
+              "non-trivial = contains a Cancel; distinct by (cfg, steps)"),
+        assumptions=SERVER_ASSUME + ["the cross-hop cascade (chains of depth 1-3) is not bound to the code by this check yet; see DESIGN.md"],
+        models=[smodel("cancel-positions", ["M_C04"], CancelBudget=2, thorough=dict(MaxInc=3)),
+                smodel("cancel-limit-slow-sink", ["M_C04"], Limit=1, SinkMode='"coupled"', thorough=dict(MaxInc=3))],
+        families=[server_family([sexport("cancel", CancelBudget=2), sexport("cancel-limit", Limit=1, SinkMode='"coupled"', cap_quick=1500)],
+                                2500, 40000, {"fresh": 1, "faults": 0})],
+        relevant=lambda e: has(e, "Cancel"),
+    ),
+    "C06": dict(
+        level="model_checking", verdict="Verdict_C06",
+        rule=("server schedules with deadlines past/0/1/2 ms and far, several concurrent requests, completion-vs-expiry orders, every clock stepping, "
+              "with/without limit, unready sink periods; non-trivial = a near deadline and a clock tick; distinct by (cfg, steps)"),
+        assumptions=SERVER_ASSUME,
+        models=[smodel("deadlines", ["M_C06", "M_C11"], Deadlines="{0, 1, 2}", MaxTime=3, CancelBudget=0, thorough=dict(MaxInc=3)),
+                smodel("deadlines-limit-slow-sink", ["M_C06", "M_C11"], Deadlines="{1, 2}", MaxTime=3, CancelBudget=0, Limit=1,
+                       SinkMode='"coupled"', thorough=dict(MaxInc=3))],
+        families=[server_family([sexport("deadlines", Deadlines="{0, 1, 2}", MaxTime=3, CancelBudget=0),
+                                 sexport("deadlines-limit", Deadlines="{1, 2}", MaxTime=3, CancelBudget=0, Limit=1, SinkMode='"coupled"', cap_quick=1500)],
+                                2500, 40000, {"fresh": 1, "faults": 0})],
+        relevant=lambda e: has(e, "Tick") and any(s.get("a") == "Req" and s.get("dl", 10000) < 1000 for s in e.get("steps", [])),
+    ),
+    "C08": dict(
+        level="model_checking", verdict="Verdict_C08",
+        rule=("server schedules in which the peer sends fresh, duplicate-while-in-flight and reused ids, cancellations and EOF, all handler completion orders, "
+              "response buffer 1-2; non-trivial = an id is sent at least twice or a Cancel is present; distinct by (cfg, steps)"),
+        assumptions=SERVER_ASSUME + ["id reuse is explored without application-side handler drops (their combination only re-exposes finding F8b, pinned in C11)"],
+        models=[smodel("request-sequences", ["M_C08"], Ids="{1}", MaxInc=3, FreshIdsOnly=False, thorough=dict(Ids="{1, 2}")),
+                smodel("request-sequences-limit", ["M_C08"], Ids="{1}", MaxInc=3, FreshIdsOnly=False, Limit=1)],
+        families=[server_family([sexport("reuse", Ids="{1}", MaxInc=3, FreshIdsOnly=False),
+                                 sexport("reuse-limit", Ids="{1}", MaxInc=3, FreshIdsOnly=False, Limit=1, cap_quick=1500)],
+                                2500, 40000, {"fresh": 0, "faults": 0, "appdrop": 0})],
+        relevant=lambda e: has(e, "Cancel") or len([s for s in e.get("steps", []) if s.get("a") == "Req"]) > len({s.get("id") for s in e.get("steps", []) if s.get("a") == "Req"}),
+    ),
+    "C12": dict(
+        level="model_checking", verdict="Verdict_C12",
+        rule=("server schedules with limit L in {0,1,2}: arrival patterns of requests and cancellations, completion/response-write orders, temporarily unready sink; "
+              "non-trivial = at least L+1 requests; distinct by (cfg, steps)"),
+        assumptions=SERVER_ASSUME + ["'in flight when it was read' = other tracked requests at the instant the transport handed the request over (DESIGN.md Appendix C.4)"],
+        models=[smodel("throttle-L1", ["M_C12"], Limit=1, MaxInc=3, thorough=dict(CancelBudget=2)),
+                smodel("throttle-L0", ["M_C12"], Limit=0, MaxInc=2),
+                smodel("throttle-L1-slow-sink", ["M_C12"], Limit=1, MaxInc=2, SinkMode='"coupled"', thorough=dict(MaxInc=3))],
+        families=[server_family([sexport("throttle-L1", Limit=1, MaxInc=3), sexport("throttle-L0", Limit=0, cap_quick=500),
+                                 sexport("throttle-slow", Limit=1, SinkMode='"coupled"', cap_quick=1500)],
+                                2500, 40000, {"fresh": 1, "faults": 0, "limit": "some"})],
+        relevant=lambda e: e.get("cfg", {}).get("limit", -1) >= 0 and count(e, "Req") > e.get("cfg", {}).get("limit", 0),
+    ),
+}
+PROPS.update(SERVER_PROPS)
+
+# server halves of the two-sided properties
+PROPS["C09"]["models"].append(smodel("server-faults", ["M_C09"], FaultOps='{"next", "ready", "send", "flush"}', AllowStreamDrop=True, CancelBudget=0))
+PROPS["C09"]["families"].append(server_family([sexport("faults", FaultOps='{"next", "ready", "send", "flush"}', AllowStreamDrop=True, CancelBudget=0)], 2000, 30000, {"fresh": 1}))
+PROPS["C10"]["models"].append(smodel("server-shutdown", ["M_C10"], CancelBudget=1, thorough=dict(MaxInc=3)))
+PROPS["C10"]["families"].append(server_family([sexport("shutdown", CancelBudget=1)], 2000, 30000, {"fresh": 1, "faults": 0}))
+PROPS["C11"]["models"].append(smodel("server-reclaim", ["M_C11"], AllowAppDrop=True, thorough=dict(MaxInc=3)))
+PROPS["C11"]["families"].append(server_family([sexport("reclaim", AllowAppDrop=True)], 2500, 30000, {"fresh": 1, "reqs": 8}))
+PROPS["C14"]["models"].append(smodel("server-coupled", ["M_C14"], SinkMode='"coupled"', Limit=1, CancelBudget=0))
+PROPS["C14"]["models"].append(smodel("server-independent", ["M_C14"], SinkMode='"independent"', Limit=1, CancelBudget=0))
+PROPS["C14"]["families"].append(server_family([sexport("coupled", SinkMode='"coupled"', Limit=1, CancelBudget=0, cap_quick=1000),
+                                               sexport("independent", SinkMode='"independent"', Limit=1, CancelBudget=0, cap_quick=1000)], 2000, 30000, {"fresh": 1}))
+for _p in ("C09", "C10", "C11", "C14"):
+    PROPS[_p]["assumptions"] = [a for a in PROPS[_p]["assumptions"] if "half" not in a and "Requests/MaxRequests are checked" not in a] + SERVER_ASSUME[:2]
+_rel_client = {p: PROPS[p]["relevant"] for p in ("C09", "C10", "C11", "C14")}
+PROPS["C09"]["relevant"] = lambda e: has(e, "Arm", "PeerEof", "DropStream")
+PROPS["C10"]["relevant"] = lambda e: has(e, "HandleDrop", "PeerEof")
+PROPS["C11"]["relevant"] = lambda e: count(e, "Call") >= 2 or count(e, "Req") >= 2
+PROPS["C14"]["relevant"] = lambda e: e.get("cfg", {}).get("mode") in ("coupled", "independent")
+
+
+# ------------------------------------------------------------------ hooks (Hooks.tla)
+def hooks_to_sched(g, consts):
+    e = g["expr"]
+    kinds = []
+    x = e
+    while x.get("k") != "base":
+        kinds.append(x["k"])
+        x = x["s"]
+    return dict(cfg={"expr": e}, steps=[], tags=tuple(kinds))
+
+
+def hooks_relevant(e):
+    x = e.get("cfg", {}).get("expr", {})
+    return x.get("k", "base") != "base"
+
+
+PROPS["C19"] = dict(
+    level="model_checking", verdict="Verdict_C19",
+    rule=("hook chains = expressions over before / after / before-and-after / before-list wrappers: every expression up to depth 3 (lists up to 2) "
+          "enumerated by TLC with every hook behaviour (fails?, sets context?, rewrites result?), sampled round-robin over nesting shapes in the quick tier, "
+          "plus seeded random chains up to depth 4 with lists up to 3; non-trivial = at least one wrapper; distinct by expression"),
+    assumptions=["the request context is abstracted to its trace id; hooks are one dynamic hook type whose behaviour is data",
+                 "chains deeper than 4 wrappers or lists longer than 3 are not built (the wrapper code is straight-line and non-recursive)"],
+    models=[dict(module="MC_Hooks", name="laws", constants=dict(MaxDepth=3, MaxList=2), quick={}, thorough=dict(MaxDepth=3, MaxList=3),
+                 invariants=["Laws"], coverage=False)],
+    families=[dict(family="hooks", trace_module="Trace_Hooks", random_quick=3000, random_thorough=60000,
+                   exports=[dict(module="MC_Hooks", name="chains", constants=dict(MaxDepth=3, MaxList=2), quick={}, thorough={},
+                                 to_sched=hooks_to_sched, view="", cap_quick=4000, cap_thorough=200000, timeout=900)])],
+    relevant=hooks_relevant,
+)
+
+
+# ------------------------------------------------------------------ stubs (Stubs.tla)
+def stubs_fixed(tier):
+    import itertools
+    out = []
+    L = 3 if tier == "quick" else 4
+    k = 0
+    for n in range(1, L + 1):
+        for script in itertools.product(["ok", "err"], repeat=n):
+            for pol in itertools.product([(False, False), (True, False), (False, True), (True, True)], repeat=n - 1):
+                policy = [list(p) for p in pol] + [[False, False]]
+                k += 1
+                out.append(dict(id="enum:retry:%d" % k, cfg={"kind": "retry", "n": 1, "script": list(script), "policy": policy}, steps=[]))
+    for n in range(1, 5):
+        for calls in (1, n, n + 1, 2 * n + 1):
+            out.append(dict(id="enum:rri:%d:%d" % (n, calls), cfg={"kind": "rri", "n": n, "calls": calls}, steps=[]))
+        for th in (2, 3):
+            for picks in (1, 2, 3):
+                for rep in range(3 if tier == "quick" else 20):
+                    out.append(dict(id="enum:rr:%d:%d:%d:%d" % (n, th, picks, rep), cfg={"kind": "rr", "n": n, "threads": th, "picks": picks}, steps=[]))
+    return out
+
+
+PROPS["C20"] = dict(
+    level="model_checking", verdict="Verdict_C20",
+    rule=("stub scenarios: every retry (result script x policy table) up to length 3 (4 thorough) enumerated, round robin with 1-4 backends driven sequentially "
+          "(exact cursor check) and by 2-3 real threads x 1-3 picks (linearisation search), consistent hash with table hashers incl. 64-bit hash values, "
+          "plus seeded random scenarios; non-trivial = more than one attempt / more than one thread or call; distinct by cfg"),
+    assumptions=["real threads are scheduled by the OS: the interleavings actually exercised are not controlled (TLC explores all of them on the model)",
+                 "the hasher is table-driven; backend = hash mod n is recomputed independently by the harness in 128-bit arithmetic"],
+    models=[dict(module="Stubs", name="stubs", constants=dict(Threads="{1, 2}", Backends="{1, 2, 3}", PicksPerThread=2, SplitCursor=False,
+                                                             Reqs="{1, 2}", HashMax=3, MaxAttempts=3, Results='{"ok", "err"}'),
+                 quick={}, thorough=dict(Threads="{1, 2, 3}", PicksPerThread=2, HashMax=4),
+                 invariants=["Inv_Balance", "Inv_Hash", "Inv_Retry"], coverage=False)],
+    families=[dict(family="stubs", trace_module="Trace_Stubs", random_quick=2000, random_thorough=40000, fixed=stubs_fixed, exports=[])],
+    relevant=lambda e: (e.get("cfg", {}).get("kind") == "retry" and len(e["cfg"].get("script", [])) > 1)
+    or (e.get("cfg", {}).get("kind") in ("rr", "rri", "ch")),
+)
+
+# ------------------------------------------------------------------ manifest texts
+def _mt(spec, what, design, note_extra=""):
+    return dict(
+        text=("%s is model-checked by TLC (exhaustive within the constants recorded in the evidence; observer invariants of the property "
+              "checked in every model state), its terminal and simulated behaviours are exported as schedules and replayed against the real "
+              "code with poll results and wake-ups compared step by step (drift), and every recorded trace (replayed, pinned findings, "
+              "seeded random) is validated by TLC against the observer specification: %s" % (spec, what)),
+        design_ref=design,
+        note=("Exhaustive only within the model constants; the code is judged on the explored schedules. Trusted: TLC, the harness "
+              "(executor, instrumented transport, virtual clock), the observer's reading of the statement (DESIGN.md Appendix C). " + note_extra),
+        technique="TLA+ model checking (TLC) + schedule replay + TLC trace validation",
+    )
+
+
+MANIFEST_TEXT = {
+    "C13": _mt("ChannelsPerKey.tla", "Inv_C13a/b/c on ObsKeys (per-key live count, sheds only at the limit, no arrival left undecided).", "DESIGN.md section 6, C13"),
+    "C01": _mt("Client.tla with an adversarial peer", "Inv_C01a-d on ObsClient (success only with a body pushed for the call's own id and handed over after its request; no body delivered twice; error outcomes need a cause; ids unique).", "DESIGN.md section 6, C01"),
+    "C02": _mt("Client.tla (capacity 1, coupled and independent sinks, EOF, handle drop)", "Inv_C02a-c on ObsClient at settle/quiescent points (no call pending at quiescence, every pushed reply handed over, peer close noticed, no spin).", "DESIGN.md section 6, C02", "Liveness under fairness is checked on the model only (thorough tier)."),
+    "C03": _mt("Client.tla with the guard's three drop steps as separate actions", "Inv_C03a-d on ObsClient (at most one Cancel per id, only after its Request, never for a resolved call, owed cancels present at settle points unless excused).", "DESIGN.md section 6, C03", "Needs hook H1 for the windows inside the guard's drop."),
+    "C05": _mt("Client.tla with deadlines {past,0,1,2}", "Inv_C05a-c on ObsClient (deadline errors never early and only for transmitted requests, resolved by deadline+1ms at settle points, a reply processed before the deadline wins).", "DESIGN.md section 6, C05"),
+    "C09": _mt("Client.tla and Server.tla with one fault armed at each transport operation, and EOF", "Inv_C09a/b/d on ObsClient and Inv_C09s on ObsServer (dispatch/stream error names the activity, outstanding calls fail with connection errors, later calls fail fast, a failed request write fails only that call, handlers dropped with the channel, no panic).", "DESIGN.md section 6, C09"),
+    "C10": _mt("Client.tla and Server.tla with handle drop / peer close at every point", "Inv_C10a/b on ObsClient and Inv_C10s on ObsServer (drain then exactly one close and Ok; prompt stop on EOF; server stream ends only after EOF with nothing tracked and everything flushed, and does end then).", "DESIGN.md section 6, C10"),
+    "C11": _mt("Client.tla and Server.tla", "Inv_C11a/c on ObsClient and Inv_C11s on ObsServer (hook H3 counts vs. requests outstanding on the wire / ground-truth tracked set at every poll end; zero entries and timers once everything ended, clock stopped).", "DESIGN.md section 6, C11", "Carries known findings F6 and F8b by signature."),
+    "C14": _mt("Client.tla and Server.tla over coupled and independent sinks", "Inv_C14 on ObsClient and Inv_C14s on ObsServer (start_send only with readiness credit, never after close/failure, never idle with unflushed items unless a flush/close is pending, no non-returning poll).", "DESIGN.md section 6, C14"),
+    "C18": _mt("Client.tla", "Inv_C18a/b on ObsClient (request carries the caller's trace id and sampling with a fresh span; the cancel carries the request's trace id, span and sampling).", "DESIGN.md section 6, C18", "Only the client hop is bound to the code so far; server hop and chains are modelled but not yet replayed."),
+    "C04": _mt("Server.tla with Cancel at every position", "Inv_C04 on ObsServer (after a consumed Cancel for a tracked incarnation: no handler poll/completion, no response; untracked cancels change nothing - checked through the count bounds).", "DESIGN.md section 6, C04", "The multi-hop cascade is not yet bound to the code."),
+    "C06": _mt("Server.tla with deadlines {0,1,2}", "Inv_C06 on ObsServer (handler dropped before its deadline only with a cause; expired requests are untracked/aborted by the next complete channel poll and never polled or answered afterwards).", "DESIGN.md section 6, C06", "Carries known finding F6 by signature."),
+    "C08": _mt("Server.tla with fresh, duplicate and reused ids", "Inv_C08 on ObsServer (every read request is yielded, refused or a duplicate of a tracked id; each response carries the body of a finished, still-tracked incarnation of its own id, at most once).", "DESIGN.md section 6, C08", "Carries known finding F8 by signature."),
+    "C19": dict(
+        text=("Hooks.tla gives the request-hook wrappers a big-step semantics Eval (who is invoked in which order, with which context and result, "
+              "and the final result). TLC enumerates every expression up to depth 3 and checks the laws of the property on the semantics "
+              "(handler at most once, before-parts in chained order up to the first failure, short-circuit, after-parts last); every enumerated "
+              "expression (sampled in the quick tier) and seeded random deeper ones are built from the real wrapper types, executed, and the "
+              "recorded invocation sequence and result are compared with Eval by TLC (Trace_Hooks)."),
+        design_ref="DESIGN.md section 6, C19",
+        note="The enumeration is exhaustive up to depth 3 / list length 2-3; the wrapper code is straight-line so every path of every wrapper is exercised. Trusted: TLC, the harness's dynamic hook type.",
+        technique="TLA+ semantics enumerated by TLC + execution of every enumerated chain + TLC trace validation",
+    ),
+    "C20": dict(
+        text=("Stubs.tla models the round-robin cursor with concurrent pickers (one atomic fetch-add per pick; a split load/store variant is kept as a "
+              "negative test and TLC finds its imbalance), the consistent-hash pick for every hasher function and the retry loop for every policy "
+              "function and result script; TLC checks balance, hash-mod-n and the retry laws exhaustively for small constants. The real stubs are run "
+              "on the same enumerated retry space, sequentially and under real threads for round robin, and TLC validates the recorded picks/attempts "
+              "(Trace_Stubs searches for a linearisation that follows the cursor)."),
+        design_ref="DESIGN.md section 6, C20",
+        note="Thread interleavings of the real code are whatever the OS produces; the exhaustive interleaving argument is on the model. Trusted: TLC, the harness's recording stubs.",
+        technique="TLA+ model checking (TLC) + enumerated/threaded execution + TLC trace validation with linearisation search",
+    ),
+    "C12": _mt("Server.tla with MaxRequests L in {0,1,2}", "Inv_C12 on ObsServer (yield only with fewer than L others tracked at the read instant; refusal only with at least L others; each refusal answered once with WouldBlock and never executed).", "DESIGN.md section 6, C12", "Carries known finding F7 by signature."),
 }
 
 NOT_APPLICABLE = {}
